@@ -76,7 +76,7 @@ def gen_scripts(ctx):
         sc = json.load(open(p))
         sc.pop("comment", None)
         scripts.append(sc)
-    n = 600 if ctx.thorough else 100
+    n = 600 if ctx.thorough else 64
     for i in range(n):
         flavor = ["guarded", "claimless", "overlap", "guarded"][i % 4]
         scripts.append({"id": "r%d" % i, "nodes": 3, "mode": "random", "seed": ctx.rng.randrange(1, 2 ** 62),
@@ -362,7 +362,7 @@ def run(ctx):
 
 
 META = {
-    "ready": False,
+    "ready": True,
     "category": "proof",
     "technique": "Rocq inductive invariant over an interleaving model of the activation protocol + controlled-scheduler conformance against the real engine",
     "text": "grain_engine.go's ownership/claim/activate/publish protocol and grainPID.deactivate modelled step by step over a linearizable registry; literal property refuted by two machine-checked witness schedules that are replayed on the real engine every run (known findings); inductive invariant proves at-most-one-active and registry-names-holder for all other executions, any number of nodes.",
